@@ -40,6 +40,7 @@ from phonopy import Phonopy
 import phonopy.api_phonopy as api_phonopy
 from phonopy.harmonic.displacement import get_least_displacements
 from phonopy.harmonic.force_constants import compact_fc_to_full_fc, full_fc_to_compact_fc
+from phonopy.file_IO import write_FORCE_SETS, parse_FORCE_SETS
 
 ID = [[1, 0, 0], [0, 1, 0], [0, 0, 1]]
 HEX3 = [[2, -1, 0], [-1, 2, 0], [0, 0, 3]]
@@ -104,7 +105,7 @@ FD_IMPL = ["ImplNoError", "ImplCoverAll", "ImplMapAtoms", "ImplSiteSound", "Impl
            "ImplFCExact", "ImplConvertExact"]
 FD_CONF = ["ConformsReps", "ConformsNumOps", "ConformsSite"]
 
-CFG_FDTRACE = ("SPECIFICATION Spec\nCONSTANTS\n Sessions <- MCSessions\n PMs <- MCPMs\n Diags <- MCDiags\n Syms <- MCSyms\n"
+CFG_FDTRACE = ("SPECIFICATION Spec\nCONSTANTS\n Sessions <- MCSessions\n PMs <- MCPMs\n Diags <- MCDiags\n Syms <- MCSyms\n Trigs <- MCTrigs\n"
                "CHECK_DEADLOCK FALSE\n" + "".join("INVARIANT %s\n" % i for i in FD_HYP + FD_MODEL_REQ + FD_IMPL + FD_CONF))
 
 F_TR = [[0, 0, 0], [0, 1, 1], [1, 0, 1], [1, 1, 0]]
@@ -117,48 +118,91 @@ def D3(a, b, c):
 
 
 def sessions_for(tier):
-    """(entry, model, S, primitive ('P'|'F'|'I'), expect non-symmetric blocks)"""
+    """dicts: entry, model, S, prim ('P'|'F'|'I'|'A'|'C'|'R'|'auto'), nonsym (non-symmetric 3x3 blocks expected),
+    mag ('none'|'ferri'|'afm'), symprec, perturb (Cartesian position noise, kept below symprec)"""
+    def X(e, m, S, p, ns=False, **kw):
+        return dict(dict(entry=e, model=m, S=S, pname=p, nonsym=ns, mag="none", symprec=1e-5, perturb=0.0), **kw)
+
     q = [
-        ("tric", "angle2", D3(2, 1, 1), "P", True),
-        ("tric", "angle2", [[1, 1, 0], [0, 1, 0], [0, 0, 2]], "P", True),
-        ("tetab", "angle2", D3(2, 2, 1), "P", True),
-        ("cscl", "angle1", [[1, 1, 0], [-1, 1, 0], [0, 0, 1]], "P", False),
-        ("nacl", "angle1", ID, "F", False),
-        ("naclg", "pair", ID, "F", False),
-        ("nacl", "pair", ID, "P", False),
-        ("bcc", "angle1", D3(2, 1, 1), "I", False),
-        ("hcp", "pair", [[2, 1, 0], [0, 1, 0], [0, 0, 1]], "P", False),
-        ("wz", "angle2", ID, "P", False),
-        ("sc", "pair", [[2, 1, 0], [0, 2, 0], [0, 0, 1]], "P", False),
-        ("nacl", "angle1", [[0, 1, 1], [1, 0, 1], [1, 1, 0]], "F", False),
-        ("tetab", "angle2", D3(2, 2, 2), "P", True),
-        ("bcc", "pair", [[0, 1, 1], [1, 0, 1], [1, 1, 0]], "I", False),
-        ("naclg", "angle1", D3(2, 2, 1), "F", False),
+        X("tric", "angle2", D3(2, 1, 1), "P", True),
+        X("tric", "angle2", [[1, 1, 0], [0, 1, 0], [0, 0, 2]], "P", True, symprec=1e-3, perturb=1e-4),
+        X("tetab", "angle2", D3(2, 2, 1), "P", True),
+        X("cscl", "angle1", [[1, 1, 0], [-1, 1, 0], [0, 0, 1]], "P"),
+        X("nacl", "angle1", ID, "F"),
+        X("naclg", "pair", ID, "auto"),
+        X("nacl", "pair", ID, "P"),
+        X("bcc", "angle1", D3(2, 1, 1), "I"),
+        X("hcp", "pair", [[2, 1, 0], [0, 1, 0], [0, 0, 1]], "P", symprec=1e-3, perturb=1e-4),
+        X("wz", "angle2", D3(2, 2, 1), "P", True),            # hexagonal (6mm), non-symmetric blocks
+        X("sc", "pair", [[2, 1, 0], [0, 2, 0], [0, 0, 1]], "P"),
+        X("nacl", "angle1", [[0, 1, 1], [1, 0, 1], [1, 1, 0]], "F", symprec=1e-3, perturb=2e-4),
+        X("tetab", "angle2", D3(2, 2, 2), "P", True, mag="ferri"),
+        X("bcc", "pair", [[0, 1, 1], [1, 0, 1], [1, 1, 0]], "auto"),
+        X("zns", "angle1", D3(2, 1, 1), "F", True),           # cubic F-43m, non-symmetric blocks
+        X("zns", "angle1", ID, "auto"),
+        X("orthoc", "angle1", D3(2, 1, 1), "C"),
+        X("orthoa", "pair", [[1, 0, 0], [0, 1, 1], [0, -1, 1]], "A"),
+        X("rhomb", "angle1", ID, "R"),
+        X("bccafm", "pair", D3(2, 1, 1), "P", mag="afm"),
+        X("scafm", "pair", D3(1, 2, 2), "P", mag="afm"),
+        X("cscl", "angle1", D3(2, 1, 1), "P", mag="ferri"),
     ]
     if tier == "quick":
         return q
     t = q + [
-        ("tric", "angle3", D3(2, 2, 1), "P", True),
-        ("tric", "angle2", [[1, -1, 1], [0, 2, 0], [-1, 0, 1]], "P", True),
-        ("tetab", "angle2", [[1, 1, 0], [-1, 1, 0], [0, 0, 2]], "P", False),
-        ("cscl", "angle2", D3(2, 2, 2), "P", False),
-        ("cscl", "pair", [[2, 1, 0], [0, 1, 1], [0, 0, 2]], "P", False),
-        ("naclg", "angle1", D3(2, 1, 1), "F", False),
-        ("nacl", "pair", D3(2, 2, 2), "F", False),
-        ("nacl", "angle1", [[1, 1, 0], [-1, 1, 0], [0, 0, 1]], "P", False),
-        ("bcc", "angle2", D3(2, 2, 2), "I", False),
-        ("bcc", "pair", D3(2, 2, 1), "P", False),
-        ("hcp", "angle2", D3(2, 2, 2), "P", False),
-        ("hcp", "angle1", D3(3, 3, 1), "P", False),
-        ("wz", "angle2", D3(2, 2, 1), "P", False),
-        ("wz", "pair", [[1, 1, 0], [-1, 2, 0], [0, 0, 1]], "P", False),
-        ("sc", "angle2", D3(3, 3, 3), "P", False),
-        ("sc", "pair", [[2, 1, 0], [0, 2, 1], [1, 0, 2]], "P", False),
+        X("naclg", "angle1", D3(2, 2, 1), "F"),
+        X("tric", "angle3", D3(2, 2, 1), "P", True),
+        X("tric", "angle2", [[1, -1, 1], [0, 2, 0], [-1, 0, 1]], "P", True),
+        X("tetab", "angle2", [[1, 1, 0], [-1, 1, 0], [0, 0, 2]], "P"),
+        X("cscl", "angle2", D3(2, 2, 2), "P"),
+        X("cscl", "pair", [[2, 1, 0], [0, 1, 1], [0, 0, 2]], "P"),
+        X("naclg", "angle1", D3(2, 1, 1), "F"),
+        X("nacl", "pair", D3(2, 2, 2), "F"),
+        X("nacl", "angle1", [[1, 1, 0], [-1, 1, 0], [0, 0, 1]], "P"),
+        X("bcc", "angle2", D3(2, 2, 2), "I"),
+        X("bcc", "pair", D3(2, 2, 1), "P"),
+        X("hcp", "angle2", D3(2, 2, 2), "P"),
+        X("hcp", "angle1", D3(3, 3, 1), "P"),
+        X("wz", "angle2", D3(3, 3, 1), "P", True),
+        X("wz", "pair", [[1, 1, 0], [-1, 2, 0], [0, 0, 1]], "P"),
+        X("wz", "angle2", ID, "P", mag="ferri"),
+        X("sc", "angle2", D3(3, 3, 3), "P"),
+        X("sc", "pair", [[2, 1, 0], [0, 2, 1], [1, 0, 2]], "P"),
+        X("zns", "angle1", D3(2, 2, 1), "F", True),
+        X("zns", "angle1", D3(2, 2, 2), "auto", True),       # full cubic supercell symmetry
+        X("zns", "pair", [[0, 1, 1], [1, 0, 1], [1, 1, 0]], "F", mag="ferri"),
+        X("orthoc", "pair", [[1, 1, 0], [-1, 1, 0], [0, 0, 2]], "auto"),
+        X("orthoa", "angle1", D3(1, 2, 2), "auto"),
+        X("rhomb", "angle2", D3(2, 2, 1), "R", symprec=1e-3, perturb=2e-4),
+        X("rhomb", "pair", [[1, 1, 0], [-1, 2, 0], [0, 0, 1]], "auto"),
+        X("bccafm", "pair", D3(2, 2, 2), "P", mag="afm"),
+        X("scafm", "pair", [[1, 0, 0], [0, 1, 1], [0, -1, 1]], "P", mag="afm"),
+        X("nacl", "angle1", ID, "F", mag="ferri"),
     ]
     return t
 
 
-PRIM = {"P": (None, P_TR), "F": ("F", F_TR), "I": ("I", I_TR)}
+PRIM_ARG = {"P": None, "F": "F", "I": "I", "A": "A", "C": "C", "R": "R", "auto": "auto"}
+ROUTES = ["setter", "dataset", "arg", "file"]      # how the forces reach the solver
+FCCALC = [None, "traditional"]
+
+
+def ptrans_of(pmat, D):
+    """Translations of the primitive lattice (columns of pmat, unit-cell coordinates) inside the unit cell, as
+    numerators over D: what `ptrans` of the specification's session is for the primitive matrix the code used."""
+    pmat = np.eye(3) if pmat is None else np.array(pmat, dtype=float)
+    out = set()
+    for n in itertools.product(range(-3, 4), repeat=3):
+        x = pmat @ np.array(n, dtype=float)
+        f = (x - np.floor(x + 1e-9)) * D
+        r = np.rint(f)
+        if np.abs(f - r).max() > 1e-6:
+            raise tlcmod.MachineryError("primitive lattice is not on the 1/D grid: %s" % (pmat.tolist(),))
+        out.add(tuple(int(v) % D for v in r))
+    if abs(len(out) * abs(np.linalg.det(pmat)) - 1.0) > 1e-6:
+        raise tlcmod.MachineryError("primitive matrix %s: %d translations found" % (pmat.tolist(), len(out)))
+    return sorted(out)
+
 PM_ARG = {"auto": "auto", "on": True, "off": False}
 DISTANCES = [0.01, 0.03, 1e-4]
 TOL_PROJ = 1e-6      # on integers D^2 L Phi L^T (observed residual ~1e-12; a wrong block is off by >= 1)
@@ -195,22 +239,28 @@ def disp_events_of(symmetry, rows, diag, pm, trig):
     return evs
 
 
-def record_run(real, cell, S, prim, opts, ref_int):
+def record_run(real, cell, S, prim, opts, ref_int, symprec=1e-5):
     """Drive one real session; return the run record for FiniteDifferenceTrace (+ python-side details)."""
-    sym, diag, pm, layout, dist = opts
+    sym, diag, pm, layout, dist, trig, route, fcc = opts
     n = len(cell["atoms"])
-    run = dict(sym=sym, diag=diag, pm=pm, layout=layout, nops=0, reps=[], mapa=[], site=[], dirs=[], p2s=[], fc=0,
+    tol = TOL_PROJ
+    if route == "file":      # FORCE_SETS holds forces with 10 decimals: |dF| <= 5e-11
+        tol = max(TOL_PROJ, 1000 * 5e-11 / dist * real.D ** 2 * float((real.L ** 2).sum()))
+    run = dict(sym=sym, diag=diag, pm=pm, trig=trig, layout=layout, nops=0, reps=[], mapa=[], site=[], dirs=[], p2s=[], fc=0,
                exact=False, conv=0, convexact=False, err="")
-    info = dict(opts=dict(is_symmetry=sym, is_diagonal=diag, is_plusminus=pm, layout=layout, distance=dist))
+    info = dict(opts=dict(is_symmetry=sym, is_diagonal=diag, is_plusminus=pm, is_trigonal=trig, layout=layout,
+                          distance=dist, forces_route=route, fc_calculator=fcc, symprec=symprec), tol=tol)
     devs = []
     arr = arr2 = None
     try:
         with contextlib.redirect_stdout(io.StringIO()):
-            ph = Phonopy(real.unitcell(), supercell_matrix=S, primitive_matrix=prim, is_symmetry=sym, log_level=0)
+            ph = Phonopy(real.unitcell(), supercell_matrix=S, primitive_matrix=prim, is_symmetry=sym, symprec=symprec,
+                         log_level=0)
+        info["primitive_matrix"] = None if ph.primitive_matrix is None else np.array(ph.primitive_matrix).tolist()
         idx = real.match_atoms(S, cell, ph.supercell)
         symm = ph.symmetry
         with Capture() as cap:
-            ph.generate_displacements(distance=dist, is_plusminus=PM_ARG[pm], is_diagonal=diag)
+            ph.generate_displacements(distance=dist, is_plusminus=PM_ARG[pm], is_diagonal=diag, is_trigonal=trig)
         rows = cap.calls[-1][1]
         reps = [int(a) for a in symm.get_independent_atoms()]
         run["nops"] = int(len(symm.symmetry_operations["rotations"]))
@@ -222,7 +272,8 @@ def record_run(real, cell, S, prim, opts, ref_int):
         run["site"] = [[[[int(x) for x in r] for r in mat] for mat in symm.get_site_symmetry(a)] for a in reps]
         run["dirs"] = [[r[1:] for r in rows if r[0] == a] for a in reps]
         run["p2s"] = [idx[int(a)] + 1 for a in ph.primitive.p2s_map]
-        devs = disp_events_of(symm, rows, diag, pm, False)
+        info["ptrans"] = ptrans_of(ph.primitive_matrix, real.D)
+        devs = disp_events_of(symm, rows, diag, pm, trig)
         # the dataset handed to the user is the directions, scaled to `dist` along the supercell axes
         fa = ph.dataset["first_atoms"]
         if len(fa) != len(rows):
@@ -237,9 +288,29 @@ def record_run(real, cell, S, prim, opts, ref_int):
                 raise RuntimeError("dataset-mismatch")
             u = np.array(d["displacement"], dtype=float)
             forces.append(-np.einsum("a,jab->jb", u, fc_ref[d["number"]]))
-        ph.forces = np.array(forces)
+        forces = np.array(forces)
+        kw = dict(calculate_full_force_constants=(layout == "full"), show_drift=False, fc_calculator=fcc)
         with contextlib.redirect_stdout(io.StringIO()):
-            ph.produce_force_constants(calculate_full_force_constants=(layout == "full"), show_drift=False)
+            if route == "setter":
+                ph.forces = forces
+            elif route in ("dataset", "file"):
+                ds = dict(natom=int(ph.dataset["natom"]),
+                          first_atoms=[dict(number=int(d["number"]), displacement=list(d["displacement"]), forces=f.copy())
+                                       for d, f in zip(fa, forces)])
+                if route == "file":
+                    rdir = tlcmod.new_rundir("c01_forcesets")
+                    try:
+                        fn = os.path.join(rdir, "FORCE_SETS")
+                        write_FORCE_SETS(ds, filename=fn)
+                        ds = parse_FORCE_SETS(natom=n, filename=fn)
+                    finally:
+                        import shutil
+                        shutil.rmtree(rdir, ignore_errors=True)
+                ph.dataset = ds
+            if route == "arg":
+                ph.produce_force_constants(forces=forces, **kw)
+            else:
+                ph.produce_force_constants(**kw)
         fc = np.array(ph.force_constants)
         p2s_real = [int(a) for a in ph.primitive.p2s_map]
         if layout == "full":
@@ -266,11 +337,11 @@ def record_run(real, cell, S, prim, opts, ref_int):
             cv = compact_fc_to_full_fc(ph.primitive, fc.copy())
             arr2, resid2 = real.project(cv, None, idx)
             arr2 = arr2[inv]
-        run["convexact"] = bool(resid2 < TOL_PROJ)
+        run["convexact"] = bool(resid2 < tol)
         info["resid_conv"] = resid2
         scale = float(np.abs(fc_ref).max())
         info.update(resid=resid, maxdiff_rel=float(np.abs(fc - fc_exp).max() / scale), n_disp=len(rows))
-        run["exact"] = bool(resid < TOL_PROJ)
+        run["exact"] = bool(resid < tol)
     except Exception as e:  # an exception of the real code where the specification expects success
         run["err"] = type(e).__name__ + ": " + str(e)[:120]
         info["traceback"] = traceback.format_exc()[-1500:]
@@ -279,32 +350,50 @@ def record_run(real, cell, S, prim, opts, ref_int):
 
 def gen_sessions(ctx, only=None):
     """Steps B + C."""
-    specs = sessions_for(ctx.tier) if only is None else [only]
-    sess = [dict(entry=e, model=m, S=S, ptrans=PRIM[p][1], prim=PRIM[p][0], pname=p, nonsym=ns, box=3)
-            for e, m, S, p, ns in specs]
+    sess = sessions_for(ctx.tier) if only is None else [only]
     for s in sess:      # C01 quantifies over matrices the constructor accepts: right-handed, non-singular
+        s.update(prim=PRIM_ARG[s["pname"]], box=3, ptrans=[[0, 0, 0]])
         if c01_ref.det3(s["S"]) <= 0:
             raise tlcmod.MachineryError("session with det S <= 0 is outside C01: %s" % s["S"])
     cells, crystals = c01_ref.reference(sess, ctx=ctx)
     for s in sess:
         s["chk"] = False
     dist_cycle = itertools.cycle(DISTANCES)
+    route_cycle = itertools.cycle(ROUTES)
+    fcc_cycle = itertools.cycle(FCCALC + FCCALC[:1])
     all_devs = []
     infos = {}
     for si, s in enumerate(sess):
         cell = cells[c01_ref.skey(s)]
         # every second crystal on a left-handed lattice (det L < 0)
-        real = c01_ref.Realised(crystals[s["entry"]], a=2.0, seed=ctx.seed * 1000 + si, left_handed=bool((si + ctx.seed) % 2))
+        real = c01_ref.Realised(crystals[s["entry"]], a=2.0, seed=ctx.seed * 1000 + si,
+                                left_handed=bool((si + ctx.seed) % 2) and s["pname"] != "auto",
+                                mag=s["mag"], perturb=s["perturb"])
+        # ('auto' on a left-handed lattice: guess_primitive_matrix returns a matrix of negative determinant that
+        #  get_primitive_matrix refuses - the constructor does not accept the input, which is outside C01)
         s["left_handed"] = real.left_handed
         ref_int = np.array(cell["fc"], dtype=np.int64)
         arrays = [ref_int]
         runs = []
-        combos = list(itertools.product([True, False], [True, False], ["auto", "on", "off"], ["full", "compact"]))
+        combos = [c + (False,) for c in itertools.product([True, False], [True, False], ["auto", "on", "off"], ["full", "compact"])]
         if ctx.quick and len(cell["atoms"]) > 12:
             combos = combos[::2] if si % 2 else combos[1::2]
-        for sym, diag, pm, layout in combos:
+        # is_trigonal (a test-only option of the code) end to end
+        combos += [(True, True, "auto", "full", True), (True, False, "on", "compact", True),
+                   (True, True, "off", "compact", True), (False, True, "auto", "full", True)]
+        ptr = None
+        for sym, diag, pm, layout, trig in combos:
             dist = next(dist_cycle)
-            run, info, (arr, arr2), devs = record_run(real, cell, s["S"], s["prim"], (sym, diag, pm, layout, dist), ref_int)
+            route = next(route_cycle)
+            if route == "file":
+                dist = 0.03
+            opts = (sym, diag, pm, layout, dist, trig, route, next(fcc_cycle))
+            run, info, (arr, arr2), devs = record_run(real, cell, s["S"], s["prim"], opts, ref_int, symprec=s["symprec"])
+            if "ptrans" in info:
+                if ptr is None:
+                    ptr = info["ptrans"]
+                elif ptr != info["ptrans"]:
+                    raise tlcmod.MachineryError("primitive lattice differs between runs of one session: %s" % s["entry"])
             for fld, a1 in (("fc", arr), ("conv", arr2)):
                 if a1 is None:
                     run[fld] = 1
@@ -319,8 +408,10 @@ def gen_sessions(ctx, only=None):
             runs.append(run)
             infos[(si, len(runs))] = info
             all_devs.extend(devs)
-            ctx.count((s["entry"], s["model"], json.dumps(s["S"]), s["pname"], sym, diag, pm, layout))
+            ctx.count((s["entry"], s["model"], json.dumps(s["S"]), s["pname"], s["mag"], s["symprec"]) + opts)
             ctx.traces += 1
+        # the primitive translations the specification's session uses are those of the primitive matrix the code used
+        s["ptrans"] = [list(t) for t in (ptr or [(0, 0, 0)])]
         s["runs"] = runs
         s["arrays"] = [a.tolist() for a in arrays]
         s["ref"] = 1
@@ -442,8 +533,9 @@ def load_replay(ctx):
         rp = json.load(f)
     key, d = rp.get("key", ""), rp.get("detail") or {}
     if key.startswith("session:") or key.startswith("tlc:FiniteDifference"):
-        prim = d.get("primitive") or "P"
-        return ("session", (d["entry"], d["model"], [list(r) for r in d["S"]], prim, False))
+        return ("session", dict(entry=d["entry"], model=d["model"], S=[list(r) for r in d["S"]], pname=d.get("primitive") or "P",
+                                nonsym=False, mag=d.get("mag", "none"), symprec=d.get("symprec", 1e-5),
+                                perturb=d.get("perturb", 0.0)))
     if key.startswith("disptrace:") or key.startswith("replay:Displacements"):
         ev = d.get("event") or d
         return ("event", dict(site=ev["site"], diag=ev["diag"], pm=ev["pm"], trig=ev["trig"], out=ev.get("out", [])))
@@ -502,7 +594,8 @@ def run(ctx):
     else:
         sess, infos, devs = gen_sessions(ctx)
     ctx.extra["sessions"] = [dict(entry=s["entry"], model=s["model"], S=s["S"], primitive=s["pname"], natom=s["natom"],
-                                  left_handed=s["left_handed"],
+                                  left_handed=s["left_handed"], mag=s["mag"], symprec=s["symprec"], perturb=s["perturb"],
+                                  ptrans=s["ptrans"],
                                   runs=len(s["runs"]), distinct_arrays=len(s["arrays"])) for s in sess]
     resids = [i["resid"] for i in infos.values() if "resid" in i]
     diffs = [i["maxdiff_rel"] for i in infos.values() if "maxdiff_rel" in i]
@@ -561,7 +654,8 @@ def run(ctx):
         body = ", ".join(c01_ref.session_tla(s, dict(runs=s["runs"], arrays=s["arrays"], ref=s["ref"], nonsym=bool(s["nonsym"])))
                          for s in b)
         mc = ("---- MODULE MC_FDTrace ----\nEXTENDS FiniteDifferenceTrace\nMCSessions == {%s}\nMCPMs == %s\n"
-              "MCDiags == {TRUE, FALSE}\nMCSyms == {TRUE, FALSE}\n====\n" % (body, model_pms))
+              "MCDiags == {TRUE, FALSE}\nMCSyms == {TRUE, FALSE}\nMCTrigs == %s\n====\n"
+              % (body, model_pms, "{FALSE}" if ctx.quick else "{FALSE, TRUE}"))
         res = ctx.tlc("MC_FDTrace", cfg_text=CFG_FDTRACE, extra_files={"MC_FDTrace.tla": mc}, requirement=False,
                       workers=min(workers, max(2, 2 * len(b))), coverage=first, extra_args=("-continue",), timeout=3000)
         if first:
@@ -576,7 +670,7 @@ def run(ctx):
         seen = set()
         for nme, tr in res.violations:
             se = witness_session(tr)
-            key = (nme, json.dumps([se.get("entry"), se.get("S")]) if se else "")
+            key = (nme, json.dumps([se.get("entry"), se.get("S"), se.get("mag"), sorted(map(list, se.get("ptrans")))]) if se else "")
             if key in seen:
                 continue
             seen.add(key)
@@ -588,7 +682,8 @@ def run(ctx):
             if se:
                 # python-side details of the recorded runs of that session (the decision was TLC's)
                 for si, s in enumerate(sess):
-                    if s["entry"] == se.get("entry") and [list(r) for r in se.get("S")] == s["S"] and s["model"] == se.get("model"):
+                    if s["entry"] == se.get("entry") and [list(r) for r in se.get("S")] == s["S"] and s["model"] == se.get("model") \
+                            and s["mag"] == se.get("mag") and sorted(map(tuple, s["ptrans"])) == sorted(map(tuple, se.get("ptrans"))):
                         bad = []
                         for ri, r in enumerate(s["runs"]):
                             inf = infos[(si, ri + 1)]
@@ -597,7 +692,7 @@ def run(ctx):
                                 bad.append(dict(inf["opts"], err=r["err"], maxdiff_rel=inf.get("maxdiff_rel"),
                                                 resid=inf.get("resid"), traceback=inf.get("traceback")))
                         detail["suspect_runs"] = bad[:6]
-                        detail["primitive"] = s["pname"]
+                        detail.update(primitive=s["pname"], mag=s["mag"], symprec=s["symprec"], perturb=s["perturb"])
             if nme in FD_MODEL_REQ:
                 ctx.violation("tlc:FiniteDifference:" + nme, "session model violates %s" % nme, detail)
             elif nme in FD_IMPL:
